@@ -78,6 +78,8 @@ def check(prog, ctx):
              'is computed only after a scan over the rows k>=i of column i that selects by magnitude and an exchange of whole rows of the work array', 1)
     ctx.rule('C05.b', 'Laplace expansion: cofactor of column j uses Sub_Matrix(0,j), sign + for even j and - for odd j, 1x1 and 2x2 closed forms, '
              'sum over all columns', 4)
+    ctx.rule('C05.e', 'Determinant is a function of the current entries: it keeps no state in the object, or every member function that can change what it '
+             'reads (writes the entries or the shape, assigns the object, or hands out a mutable reference into the entries) resets that state', 1)
     ctx.rule('C05.c', 'gates: Invertible <=> Square and Determinant()!=0; Inverse exits iff not square or not invertible; any other exit is a '
              'zero pivot after pivot selection', 3)
     ctx.rule('C05.d', 'augmentation [M | I], final row scaling by the diagonal, extraction of columns N..2N-1', 3)
@@ -257,7 +259,21 @@ def check(prog, ctx):
     ctx.decide('C05.c', 'Determinant:gate', det, len(sd) == 1 and G.f_show(sd[0].reach).replace(' ', '') == '!(this.Square())',
                'Determinant exits iff not square', 'exit sites: %s' % [G.f_show(s.reach) for s in sd])
     ctx.sub('laplace', laplace, prog, ctx, det)
+    ctx.sub('det_cache', det_cache, prog, ctx, det)
     ctx.sub('extraction', extraction, prog, ctx, inv, elim, scale)
+
+
+def det_cache(prog, ctx, det):
+    from ..state import member_cache_protocol
+    from .C09 import field_reads, field_writes
+    r = member_cache_protocol(prog, det.cls, det, field_reads, field_writes)
+    if r is None:
+        ctx.holds('C05.e', 'Determinant:stateless', det, 'Determinant writes no field of its object: its value is a function of the current entries')
+        return
+    cache, problems = r
+    ctx.decide('C05.e', 'Determinant:cache', det, not problems, 'the stored determinant (%s) is reset by every member that can change the entries' % '/'.join(cache),
+               'a stored determinant goes stale: ' + '; '.join(problems[:3]),
+               witness={'stale_after': problems, 'reproducer': 'M.Determinant(); M[0][0] = ...; M.Determinant() returns the old value'} if problems else None)
 
 
 def laplace(prog, ctx, det):
@@ -273,6 +289,11 @@ def laplace(prog, ctx, det):
     ctx.decide(R, 'Determinant:1x1', det, ok1, 'det of 1x1 is the entry', '1x1 branch returns %s' % [str(o.value) for o in r1])
     ctx.decide(R, 'Determinant:2x2', det, ok2, 'det of 2x2 is a00 a11 - a01 a10', '2x2 branch returns %s' % [str(o.value) for o in r2])
     gen = [o for o in outs if o.kind == 'return' and o not in r1 and o not in r2]
+    if len(gen) > 1:
+        # a path that returns a stored value is judged by C05.e; the expansion is the path that recurses
+        rec_ = [o for o in gen if isinstance(o.value, sp.Basic) and any(a_.func.__name__ == M + 'Determinant' for a_ in o.value.atoms(sp.core.function.AppliedUndef))]
+        if len(rec_) == 1:
+            gen = rec_
     if len(gen) != 1:
         ctx.undecided(R, 'Determinant:expansion', det, 'general branch not unique (%d)' % len(gen))
         return
